@@ -46,8 +46,8 @@ def configs(t, sd):
         out.append({"methods": [{"name": "deco", "config": dict(zip(OCS5, mc)), "via": "decorator"}], "bare": {}, "clear": "expr"})
     out.append({"methods": [{"name": "deco_default", "config": {"no_op": 1}, "via": "decorator-default"}], "bare": {}, "clear": "expr"})
     # several methods
-    for k in (2, 3):
-        for _ in range(12 if t == "quick" else 60):
+    for k in (2, 3, 4, 5):
+        for _ in range((12 if k <= 3 else 3) if t == "quick" else (60 if k <= 3 else 24)):
             ms = []
             for i in range(k):
                 mc = rng.choice(all_mc[1:])
@@ -86,7 +86,7 @@ def main():
     results = run_jobs("verif.router:router_job", jobs, chunksize=2)
     return summarize(rep, jobs, results, PROP, "model_checking",
                      "router configurations: one method x MethodConfig in {NEVER,CALL,CREATE,ALL}^5, bare actions x CallConfig vectors x action kinds "
-                     "(approving Expr, none-typed Expr, Subroutine), bare-only routers, 2-3 methods with random configs, clear-state action absent / Expr / "
+                     "(approving Expr, none-typed Expr, Subroutine), bare-only routers, 2-5 methods with random configs, clear-state action absent / Expr / "
                      "rejecting Expr / Subroutine / ABIReturnSubroutine; versions 6..10, assemble_constants, frame pointers on/off",
                      extra_cov={"functions_encoded": "emitted approval and clear-state TEAL of pyteal.Router (pyteal/ast/router.py) under SymAVM; oracle = dispatch table from the registration data (verif/router.py)"},
                      features_fn=lambda v: v.get("features", []))
